@@ -313,7 +313,7 @@ impl Property for P {
                 Case {
                     tz: crate::vtime::tz_name(),
                     out,
-                    cfg: FileCfg { basename: Some("c04".into()), discr: None, suffix, start_ts: false, rot, mode, crlf: false, utc: false, symlink: false, bg_cleanup: false, via_logger: true },
+                    cfg: FileCfg { basename: Some("c04".into()), discr: None, suffix, start_ts: false, rot, mode, crlf: false, utc: false, symlink: false, bg_cleanup: false, via_logger: true, build_variant: 0 },
                     ops,
                     terminal,
                     concurrent,
